@@ -46,6 +46,8 @@ func encodeOps(p []scoreOp) string {
 			parts = append(parts, fmt.Sprintf("t%d:%d", o.to, o.val))
 		case 'm':
 			parts = append(parts, "m")
+		case 'd':
+			parts = append(parts, fmt.Sprintf("d%d", o.val))
 		}
 	}
 	return strings.Join(parts, ";")
@@ -175,6 +177,17 @@ func runProgram(cc contract.CallContext, parts []string) error {
 			cc.OnEvent(scoreAddr, [][]byte{[]byte(scoreEventSig), big.NewInt(v).Bytes()}, [][]byte{big.NewInt(v + 1).Bytes()})
 		case 'm':
 			cc.OnBTPMessage(1, []byte("execsim"))
+		case 'd':
+			// debit the caller beyond the value it sent (what staking-style system calls do): everything but
+			// `keep` units of its balance moves to the SCORE. If what is left cannot pay the fee, the
+			// transaction fails at fee time, after a successful execution.
+			keep, _ := strconv.ParseInt(part[1:], 10, 64)
+			from := cc.GetAccountState(cc.TransactionInfo().From.ID())
+			bal := from.GetBalance()
+			if amt := new(big.Int).Sub(bal, big.NewInt(keep)); amt.Sign() > 0 {
+				from.SetBalance(big.NewInt(keep))
+				as.SetBalance(new(big.Int).Add(as.GetBalance(), amt))
+			}
 		case 't':
 			c := strings.IndexByte(part, ':')
 			ri, _ := strconv.Atoi(part[1:c])
